@@ -195,8 +195,12 @@ class G4:
             return "(%s %s %s)" % (self.expr(d - 1), self.pick(["&&", "||", "??"]), self.expr(d - 1))
         if k < 70:
             return "(() => %s)()" % self.expr(d - 1)
-        if k < 75:
+        if k < 73:
             return "eval(%s)" % json.dumps(self.pick(["%s", "%s = 7", "%s + 1", "var ev = %s; ev", "typeof %s", "(() => %s)()"]) % x)
+        if k < 75:
+            ev = "eval(%s)" % json.dumps(self.pick(["%s", "%s = 8", "typeof %s"]) % x)
+            return self.pick(["({ m() { return %s; } }).m()", "({ get g() { return %s; } }).g", "new (class { x = %s; })().x", "(class { static y = %s; }).y",
+                              "new (class { m() { return %s; } })().m()", "[...({ *g() { yield %s; } }).g()][0]"]) % ev
         if k < 79:
             return "(0, eval)(%s)" % json.dumps(self.pick(["typeof %s" % x, "1 + 1"]))
         if k < 84:
@@ -233,25 +237,26 @@ class G4:
             return self.decl(2)
         if k < 33:   # loops with relational heads (hoisting, fused branches), mutated or constant bounds
             i = self.fresh("i")
-            lim = self.pick(["3", "4", x, "lim", "'3'", "3.5", "2n", "o.n", "(n = n - 1)", "lim2"])
+            lim = self.pick(["3", "4", x, "lim", "'3'", "3.5", "2n", "o.n", "(n = n - 1)", "lim2", "GV3", "GL3", "imp3", "ev3", "K"])
             head = self.pick(["for (let %(i)s = 0; %(i)s < %(l)s; %(i)s++)", "for (var %(i)s = 0; %(l)s > %(i)s; %(i)s++)",
                               "for (let %(i)s = 0, g%(i)s = () => %(i)s; %(i)s <= %(l)s; %(i)s++)",
                               "for (let %(i)s = 5; %(i)s >= %(l)s; %(i)s--)",
                               "for (let %(i)s = 0; (%(i)s < %(l)s); %(i)s++)"]) % {"i": i, "l": lim}
             saved = list(self.names)
             self.names.append(i)
-            extra = self.pick(["", "fs.push(() => %s);" % i, "lim = 1;", "if (%s > 1) break;" % i, "%s++;" % i, "if (%s < 2) continue;" % i, "lim2 = lim2 - 1;"])
+            extra = self.pick(["", "fs.push(() => %s);" % i, "lim = 1;", "if (%s > 1) break;" % i, "%s++;" % i, "if (%s < 2) continue;" % i, "lim2 = lim2 - 1;",
+                               "GV3 = GV3 - 1;", "GL3--;", "imp3 = 1;", "ev3 -= 1;", "GV3 = GL3 = imp3 = ev3 = 2;"])
             body = "{ if (++guard > 40) break; %s %s }" % (extra, self.stmt(d - 1))
             self.names = saved
             return head + " " + body
         if k < 38:
             c = self.fresh("w")
-            cond = self.pick(["%s < %s" % (c, self.pick(["3", "lim", "K", "CK", x])), "%s <= 2" % c, "0 < 3 - %s" % c, "%s < 3 && %s" % (c, self.expr(1)),
+            cond = self.pick(["%s < %s" % (c, self.pick(["3", "lim", "K", "CK", x, "GV3", "GL3", "imp3", "ev3"])), "%s <= 2" % c, "0 < 3 - %s" % c, "%s < 3 && %s" % (c, self.expr(1)),
                               "!(%s >= 3)" % c, "%s >= %s" % (self.pick(["3", "lim", "K"]), c)])
             saved = list(self.names)
             self.names.append(c)
             form = r() % 2
-            body = "if (++guard > 40) break; %s++; %s" % (c, self.stmt(d - 1))
+            body = "if (++guard > 40) break; %s++; %s %s" % (c, self.pick(["", "", "GV3--;", "GL3 -= 1;", "imp3 = imp3 - 1;", "ev3--;"]), self.stmt(d - 1))
             self.names = saved
             if form:
                 return "{ let %s = 0; do { %s } while (%s); }" % (c, body, cond)
@@ -272,9 +277,11 @@ class G4:
         if k < 59:   # switch with lexical declarations: temporal dead zone across cases
             y = self.fresh("y")
             sel = self.pick(["0", "1", "2", x, "sw"])
-            return "try { switch (%s) { case 0: let %s = %s; print('c0', %s); %s case 1: %s %s default: print('d'); %s = 3; print(%s); } } catch (e) { print('E:' + e.name); }" % (
-                sel, y, self.lit(), y, self.pick(["", "break;"]), self.pick(["print('c1', typeof %s);" % y, "print('c1', %s);" % y, "%s = 2;" % y, "print((() => %s)());" % y]),
-                self.pick(["", "break;"]), y, y)
+            kw = self.pick(["let", "let", "const"])
+            return "try { switch (%s) { case 0: %s %s = %s; print('c0', %s); %s case 1: %s %s default: print('d'); %s print(%s); } } catch (e) { print('E:' + e.name); }" % (
+                sel, kw, y, self.lit(), y, self.pick(["", "break;"]),
+                self.pick(["print('c1', typeof %s);" % y, "print('c1', %s);" % y, "%s = 2;" % y if kw == "let" else "print(%s + 1);" % y, "print((() => %s)());" % y, "print([%s, %s < 2].join());" % (y, y)]),
+                self.pick(["", "break;"]), "%s = 3;" % y if kw == "let" else "", y)
         if k < 64:   # temporal dead zone in blocks and through closures
             z = self.fresh("z")
             use = self.pick(["print(%s);" % z, "print(typeof %s);" % z, "%s = 1;" % z, "rd();", "print(%s + 1);" % z, "%s++;" % z, "print(%s < 2);" % z, "if (%s < 2) print('lt');" % z])
@@ -282,7 +289,10 @@ class G4:
                 self.pick(["", "function rd() { return %s; }" % z]).replace("rd() {", "rd() {"), use if "rd" not in use else "print('skip');", self.pick(["let", "const"]), z, self.lit(), z)
         if k < 69:   # with: names resolve through the object, even cached constants and locals
             obj = self.pick(["{%s: 10}" % x, "{K: 9, CK: 8}", "o", "{lim: 2}", "new Proxy({}, {has: (t, k) => k === '%s', get: () => 42})" % x])
-            return "with (%s) { %s %s }" % (obj, self.pr(self.pick([x, "K + CK", "%s = 11" % x, "%s < lim" % x, "typeof %s" % x, "(() => %s)()" % x])), self.stmt(d - 1))
+            use = lambda: self.pr(self.pick([x, "K + CK", "%s = 11" % x, "%s < lim" % x, "typeof %s" % x, "(() => %s)()" % x, "[%s, %s = 2, %s].join()" % (x, x, x)]))
+            if self.r() % 3 == 0:
+                return "with (%s) { %s with (%s) { %s } %s %s }" % (obj, use(), self.pick(["{}", "{q: 1}", "{%s: 20}" % x, "o"]), use(), use(), self.stmt(d - 1))
+            return "with (%s) { %s %s }" % (obj, use(), self.stmt(d - 1))
         if k < 74:
             e = self.fresh("e")
             saved = list(self.names)
@@ -321,7 +331,7 @@ class G4:
         body = []
         for _ in range(4 + r() % 7):
             body.append(self.stmt(3))
-        src = "const K = 5; let GL = 1; var GV = 2;\nfunction main(%s) {\n%s var u0 = 1, n = 4; let lim = 3, lim2 = 6, guard = 0, sw = 1; const CK = 4, o = {n: 3, x: 1}; const fs = [];\n%s\nprint(String([u0, n, lim, typeof p0]));\n}\n" % (
+        src = "const K = 5; let GL = 1; var GV = 2; var GV3 = 3; let GL3 = 3; imp3 = 3; eval('var ev3 = 3');\nfunction main(%s) {\n%s var u0 = 1, n = 4; let lim = 3, lim2 = 6, guard = 0, sw = 1; const CK = 4, o = {n: 3, x: 1}; const fs = [];\n%s\nprint(String([u0, n, lim, typeof p0]));\n}\n" % (
             params, "'use strict';" if strict and "=" not in params and "..." not in params else "", "\n".join(body))
         src += "try { main(%s); } catch (e) { print('E:' + (e && e.name)); }\n" % self.pick(["1, 2", "", "'5'", "{p0: 3}", "1"])
         if strict:
@@ -370,6 +380,33 @@ FIXED = [
     "function f(a = b, b = 1){ return a; } try { print(f()); } catch (e) { print(e.name); }",
     "function f(){ const c = c + 1; } try { f(); } catch (e) { print(e.name); }",
     "function f(){ l: for (let i = 0; i < 2; i++) { if (i) { try { print(w); } catch (e) { print(e.name); } } let w = 1; continue l; } } f();",
+    "function f(){ try { let [a2, b3 = a2] = [a2 + 1]; } catch (e) { print(e.name); } try { q = 1; let q; } catch (e) { print(e.name); } try { print(typeof z); let z; } catch (e) { print(e.name); } try { w++; let w = 1; } catch (e) { print(e.name); } } f();",
+    "function f(){ try { let [a2, b3 = a2] = [a2 + 1]; } catch (e) { print(String(e)); } } f();",
+    # direct eval in methods / fields / static blocks sees the enclosing function's variables
+    "function f(){ let a=1; var o={m(){return eval('a')}}; return o.m() } try { print(f()); } catch (e) { print(e.name); }",
+    "function f(){ let a=1; class C { m(){ return eval('a') } static s(){ return eval('a') } get g(){ return eval('a') } } return [new C().m(), C.s(), new C().g].join() } try { print(f()); } catch (e) { print(e.name); }",
+    "function f(){ let a=1; var o = { get g(){ return eval('a') }, *gen(){ yield eval('a') }, [eval('a')]: 2 }; return [o.g, [...o.gen()].join(), o[1]].join() } try { print(f()); } catch (e) { print(e.name); }",
+    "function f(){ let a=1; class C { x = eval('a'); static y = eval('a'); #p = eval('a'); static { print(eval('a')); } p(){ return this.#p } } return [new C().x, C.y, new C().p()].join() } try { print(f()); } catch (e) { print(e.name); }",
+    "function f(){ let a=1; function g(){ return eval('a') } var h = function(){ return eval('a') }; return [g(), h(), (() => () => eval('a'))()()].join() } print(f());",
+    # constants declared in switch clauses; constant bounds under with
+    "function f(){ switch (1) { case 0: const y = 1; case 1: return y } } try { print(f()); } catch (e) { print(e.name); }",
+    "function f(k){ switch (k) { case 0: const y = 7; print(y + 1); case 1: try { print(y + 1); } catch (e) { print(e.name); } default: try { print([y].join()); } catch (e) { print(e.name); } } } f(0); f(1); f(2);",
+    "const M = 3; function f(){ var o = {M: 1}, i = 0; with (o) { while (i < M) { o.M = 5; i++; if (i > 8) break; } } return i; } print(f());",
+    "function f(){ const M = 3; var o = {M: 1}, i = 0; with (o) { for (; i < M; i++) { o.M = 5; if (i > 8) break; } } return i; } print(f());",
+    "function f(){ const M = 3; var o = {}, i = 0; with (o) { do { o.M = 1; i++; } while (i < M && i < 9); } return i; } print(f());",
+    # loop bounds that are not declarative bindings of the function: globals, implicit globals, eval-introduced variables
+    "var n = 5; function f(){ var out = []; for (var i = 0; i < n; i++) { out.push(i); if (i === 2) n = 3; } return out.join(); } print(f(), n);",
+    "lim = 6; function f(){ var c = 0; for (let i = 0; i < lim; i++) { lim--; c++; } return c; } print(f(), lim);",
+    "function f(){ eval('var e = 4'); var c = 0; while (c < e) { e--; c++; } return c; } print(f());",
+    "let top = 4; function f(){ let c = 0; do { c++; top = 1; } while (c < top); return c; } print(f());",
+    "function f(){ var c = 0; for (; c < g.lim; c++) { g.lim = 2; } return c; } function g(){} g.lim = 5; print(f());",
+    # nested with statements: the outer object is consulted again after the inner statement ends
+    "function f(){ let x = 'local'; var o = {x: 'property'}; with (o) { with ({}) { x; } return x; } } print(f());",
+    "function f(){ let x = 1; var o = {x: 10}, r = []; with (o) { r.push(x); with ({y: 1}) { r.push(x + y); } x = 2; r.push(x); } r.push(x, o.x); return r.join(); } print(f());",
+    "function f(){ let x = 1; var o = {}, r = []; with (o) { with ({}) {} o.x = 7; r.push(x); r.push(typeof x, [x, x + 1].join()); } return r.join(); } print(f());",
+    # fused compare-and-branch with operands for which the comparison is undefined
+    "function f(a, b){ var r = []; if (a >= b) r.push('ge'); else r.push('nge'); if (a <= b) r.push('le'); else r.push('nle'); if (a > b) r.push('gt'); else r.push('ngt'); if (a < b) r.push('lt'); else r.push('nlt'); return r.join(); } print(f(undefined, 1), f(NaN, NaN), f('a', 1), f({}, {}), f(1n, 'x'), f(null, 0), f('10', '9'), f(2n, 1.5));",
+    "function f(a, b){ var c = 0; while (a >= b) { if (++c > 3) break; } for (; !(a < b); ) { if (++c > 6) break; } do { c += 10; } while (a > b && c < 50); return c; } print(f(undefined, 1), f(NaN, 0), f('x', 1), f(1, 1), f(2n, 1));",
     # constants
     "function f(){ const c = 1; try { c = 2; } catch (e) { print(e.name); } try { c++; } catch (e) { print(e.name); } return c; } print(f());",
     "const K = 5; function f(){ with ({K: 9}) { return K; } } print(f());",
@@ -524,6 +561,7 @@ def run(ck):
         progs.append("function main() {\n%s\n}\ntry { main(); } catch (e) { print('E:' + (e && e.name)); }" % p)
     rc, res, err = engine(progs, lambda i: SUBSETS if (i < len(FIXED) or i % 4 == 0 or not quick) else [15])
     diffs = skipped = 0
+    first_diff = len(ck.failing)
     sites = {}
     feats = {"with": 0, "eval": 0, "switch": 0, "function*": 0, "=>": 0, "for (": 0, "while (": 0, "const ": 0}
     for i, p in enumerate(progs):
@@ -549,12 +587,20 @@ def run(ck):
                 ck.fail_input({"site": site, "input": p, "config": "cons=%d vs cons=15" % b, "expected": {"out": base["out"], "completion": base["completion"]},
                                "actual": {"out": d["out"], "completion": d["completion"]}})
                 break
+    new_diffs = sum(1 for c in ck.failing[first_diff:] if not ck.match_known(c))
     ck.oblige("differential:trace(default) == trace(every conservative subset) on %d programs (%d fixed shapes, %d biased, %d general)" % (len(progs) - skipped, len(FIXED), ng, nj),
-              "differential", diffs == 0, "%d differing programs %s" % (diffs, sites) if diffs else None)
+              "differential", new_diffs == 0, "%d differing programs not listed as known findings %s" % (new_diffs, sites) if new_diffs else None)
     ck.coverage.update({"toy_programs": len(toys), "programs": len(progs), "skipped_budget": skipped, "features": feats, "subsets": [0] + SUBSETS,
                         "toy_register_variables": in_regs, "toy_environment_uses": in_env})
     ck.finish()
 
 
+TDZ_MSG = re.compile(r"ReferenceError: (access of uninitialized binding|[^ ]+ is not defined|cannot assign to uninitialized binding `[^`]*`)")
+
+
 def classify(p, base, d):
+    """the one difference the existing test suite pins: the TEXT of the temporal-dead-zone error"""
+    norm = lambda out: [TDZ_MSG.sub("ReferenceError: <tdz>", l) for l in out]
+    if norm(base["out"]) == norm(d["out"]) and base["completion"] == d["completion"]:
+        return "tdz-message-differs"
     return "placement-differs"
